@@ -264,9 +264,6 @@ func (c Cfg) guessPaths() []string {
 			}
 			out = append(out, q.Text(), "/"+q.Text(), path.Join(q.Text(), "swagger.json"), path.Join(b, q.Text()))
 		}
-		for _, o := range c.Ops {
-			out = append(out, path.Join(b, o))
-		}
 	default:
 		p := c.Path
 		if p == "" {
@@ -296,8 +293,11 @@ func requestsFor(c *drv.Ctx, cfg Cfg, nRandom int) []Req {
 		if !strings.HasPrefix(g, "/") {
 			g = "/" + g
 		}
-		for _, t := range around(g) {
+		for i, t := range around(g) {
 			add("GET", t, "")
+			if i%3 != 0 {
+				continue
+			}
 			m := methods[k%len(methods)]
 			k++
 			body := ""
@@ -305,6 +305,18 @@ func requestsFor(c *drv.Ctx, cfg Cfg, nRandom int) []Req {
 				body = "body-" + t
 			}
 			add(m, t, body)
+		}
+	}
+	// the operations of an API handler: at their own path, with a trailing slash, with another method
+	if isAPI(cfg.Kind) {
+		b := cfg.Base
+		if b == "" {
+			b = "/"
+		}
+		for _, o := range cfg.Ops {
+			add("GET", path.Join(b, o), "")
+			add("GET", path.Join(b, o)+"/", "")
+			add("POST", path.Join(b, o), "x")
 		}
 	}
 	for _, t := range []string{"/", "/docs", "/swagger.json", "/api", "/api/docs", "/api/swagger.json", "/docs/oauth2-callback", "/specs/api.json",
